@@ -117,6 +117,7 @@ class Recorder(object):
         self.kinds = {}
         self.listeners = []       # monitors: fn(recorder, event, stepped nid)
         self.submit_cids = set()
+        self.model_ok = True
 
     def _order(self, n):
         o = self.sim.nodes[n]
@@ -170,6 +171,10 @@ class Recorder(object):
             _, n, others, now, rnd = ev
             sim.apply(ev)
             mev = ('restart', n, sorted(others), now, rnd, sim.nodes[n]._SyncObj__selfCodeVersion)
+        elif k in ('tickkill', 'deliverkill'):
+            sim.apply(ev)
+            mev = ev
+            self.model_ok = False      # kills inside a step are not events of the Coq model (C08 covers the journal part)
         else:
             sim.apply(ev)
             mev = ev
@@ -644,6 +649,68 @@ def journal_trace(seed, n_events=300, workdir=None, keep_obs=False, listeners=()
             sch.calm_round()
         else:
             for _ in range(rng.randrange(1, 10)):
+                if sch.alive:
+                    sch.random_step()
+    return rec
+
+
+def killpoint_trace(seed, n_events=300, workdir=None, keep_obs=False, listeners=()):
+    """journaled nodes killed between two storage primitives inside a step (journal record, journal header,
+    .meta tmp write, .meta rename, dump tmp write, dump rename) - implementation under the monitors only"""
+    rng = random.Random(seed)
+    size = rng.choice([1, 2, 3, 3, 3])
+    voters = list(range(1, size + 1))
+    cfg = default_cfg(rng, voters)
+    cfg.update(journal='file', dump=rng.choice(['file', 'file', 'file', None]), queue=1000,
+               batch=rng.choice([200, 1000, 65536]), fallback=rng.choice([300, 3000]))
+    if cfg['dump'] is None:
+        cfg['min_entries'] = 10 ** 9
+        cfg['min_time'] = 10 ** 9
+    else:
+        cfg['min_entries'] = rng.choice([3, 6, 10 ** 9])
+    rec = Recorder(cfg, workdir)
+    rec.keep_obs = keep_obs
+    rec.listeners = list(listeners)
+    sch = Scheduler(rec, rng, voters)
+    sch.opts = dict(big=rng.random() < 0.2)
+    rec.opts = sch.opts
+    sch.boot()
+    sim = rec.sim
+
+    def after_kill(n):
+        sch.alive.discard(n)
+        for x in sorted(sch.alive):
+            if sch.view(x, n):
+                rec.do(('drop', x, n))
+
+    while len(rec.mevents) < n_events:
+        r = rng.random()
+        live = sorted(sch.alive)
+        dead = [x for x in voters if x not in sch.alive]
+        if r < 0.10 and live:
+            n = rng.choice(live)
+            sch.clock[n] += rng.choice([1, cfg['period'] + 1, cfg['period'] + 1, cfg['tmin']])
+            rec.do(('tickkill', n, sch.clock[n], sch.rnd(), rng.choice([0, 1, 1, 2, 3, 4, 6, 9])))
+            if n not in sim.nodes:
+                after_kill(n)
+        elif r < 0.16 and live:
+            d = sch.deliverable()
+            if d:
+                a, b = rng.choice(d)
+                rec.do(('deliverkill', a, b, sch.clock[b], sch.rnd(), rng.choice([0, 1, 1, 2, 3, 5])))
+                if b not in sim.nodes:
+                    after_kill(b)
+        elif r < 0.30 and dead:
+            sch.restart(rng.choice(dead))
+            n2 = [x for x in voters if x in sch.alive]
+        elif not live:
+            sch.restart(rng.choice(dead))
+        elif r < 0.36 and cfg['dump']:
+            rec.do(('compact', rng.choice(live)))
+        elif r < 0.8:
+            sch.calm_round()
+        else:
+            for _ in range(rng.randrange(1, 8)):
                 if sch.alive:
                     sch.random_step()
     return rec
